@@ -27,7 +27,10 @@ def main(inp: str, out: str) -> int:
     from . import c12_keys as K
 
     data = pickle.load(open(inp, "rb"))
-    res = {"seed": os.environ.get("PYTHONHASHSEED"), "probe": hash("pharmpy"), "keys": [], "dicts": [], "rebuilt": []}
+    import pharmpy
+
+    res = {"seed": os.environ.get("PYTHONHASHSEED"), "probe": hash("pharmpy"), "keys": [], "dicts": [], "rebuilt": [],
+           "conf_token": str(pharmpy.conf.missing_data_token)}
     for b in data["models"]:
         try:
             m = pickle.loads(b)
@@ -40,7 +43,7 @@ def main(inp: str, out: str) -> int:
             res["dicts"].append(hashlib.sha256(json.dumps(m.to_dict()).encode()).hexdigest()[:12])
         except Exception as e:
             res["dicts"].append("raised:" + type(e).__name__)
-    res["pickle_trips"] = K.pickle_trip_events(data["models"], data.get("hists", [""] * len(data["models"])))
+    res["pickle_trips"] = [] if data.get("no_pickle_trips") else K.pickle_trip_events(data["models"], data.get("hists", [""] * len(data["models"])))
     # the resampling-like sequence, here with every candidate kept alive (and in the opposite order)
     res["replicates"] = []
     if data.get("replicates") and data["models"]:
